@@ -55,6 +55,11 @@ def work(job):
                 return (label, 'OK', lines[0][:150] if lines else '')
             return (label, 'MISSED', 'rc=%d' % r.returncode)
         bad = [l for l in r.stdout.splitlines() if l.startswith('RESULT') and 'rc=0' not in l]
+        lim = os.path.join(os.path.dirname(pf), 'limitation')
+        if bad and os.path.exists(lim):
+            allowed = open(lim).read().split(':')[0].split(',')
+            if all(b.split()[1] in allowed for b in bad):
+                return (label, 'OK', 'documented limitation ' + ','.join(allowed))
         if not bad:
             return (label, 'OK', 'silent')
         return (label, 'FALSE-ALARM', ' '.join(b.split()[1] for b in bad) + '\n    ' + '\n    '.join(l[:300] for l in lines[:4]))
